@@ -863,3 +863,17 @@ mutant("enc-grp-border-eq", "C07", GRAPH, "            solver.ensure(is_border[i
 mutant("enc-grp-returns-rank", "C07", GRAPH, "                solver.ensure(is_active_edge[i].then(s == t))\n    return group_id", "                solver.ensure(is_active_edge[i].then(s == t))\n    return rank", "ENC-S")
 mutant("alg-borders-not-dual", "C07", GRAPH, "        edges, graph = _from_grid_frame(is_border.dual())\n        _division_connected_variable_groups_with_borders(", "        edges, graph = _from_grid_frame(BoolGridFrame(solver, is_border.height - 1, is_border.width - 1, horizontal=is_border.horizontal, vertical=is_border.vertical) if False else is_border.dual())\n        edges = list(reversed(edges))\n        _division_connected_variable_groups_with_borders(", "ALG-4D")
 variant("enc-grp-flipped", "C07", GRAPH, "                [is_active_edge[e] & (rank[j] < rank[i]) for j, e in graph.incident_edges[i]]\n            )\n            == is_root[i].cond(0, 1)", "                [(rank[i] > rank[j]) & is_active_edge[e] for j, e in graph.incident_edges[i]]\n            )\n            == is_root[i].cond(0, 1)")
+
+# ---- C08 ---------------------------------------------------------------------------------------
+mutant("enc-na-slices-mixed", "C08", GRAPH, "        solver.ensure(~(is_active[:, 1:] & is_active[:, :-1]))", "        solver.ensure(~(is_active[:, 1:] & is_active[:-1, :]))", "ENC-S", "raises on non-square / wrong pairs")
+mutant("enc-na-only-rows", "C08", GRAPH, "        solver.ensure(~(is_active[:, 1:] & is_active[:, :-1]))\n", "", "ENC-S")
+mutant("enc-na-graph-or", "C08", GRAPH, "            solver.ensure(~(is_active[i] & is_active[j]))", "            solver.ensure(~(is_active[i] | is_active[j]))", "ENC-S")
+mutant("enc-nas-generic-no-neg", "C08", GRAPH, "        active_vertices_connected(solver, ~is_active, graph)", "        active_vertices_connected(solver, is_active, graph)", "ENC-S")
+mutant("enc-nas-generic-no-adjacent", "C08", GRAPH, "        active_vertices_not_adjacent(solver, is_active, graph)\n        active_vertices_connected(solver, ~is_active, graph)", "        active_vertices_connected(solver, ~is_active, graph)", "ENC-S")
+mutant("enc-nas-rank-range", "C08", GRAPH, "        ranks = solver.int_array((height, width), 0, (height * width - 1) // 2)", "        ranks = solver.int_array((height, width), 0, (height * width - 1) // 4)", "ENC-S")
+mutant("enc-nas-border-not-root", "C08", GRAPH, "                    is_active[y, x].then(count_true(less_ranks) <= (0 if nonzero else 1))", "                    is_active[y, x].then(count_true(less_ranks) <= 1)", "ENC-S")
+# dropping `& is_active[y2, x2]` from the diagonal support only strengthens the constraint; no witness on boards up to 3x2 and the 3x3 enumeration exceeds the budget: undecided
+mutant("enc-nas-no-distinct", "C08", GRAPH, "                            if (y2, x2) < (y, x):\n                                solver.ensure(ranks[y2, x2] != ranks[y, x])\n", "", "ENC-S")
+mutant("enc-nas-diag-range", "C08", GRAPH, "                        if 0 <= y2 < height and 0 <= x2 < width:\n                            less_ranks.append", "                        if 0 <= y2 < height and 0 <= x2 < height:\n                            less_ranks.append", "ENC-S")
+variant("enc-na-flipped-slices", "C08", GRAPH, "        solver.ensure(~(is_active[1:, :] & is_active[:-1, :]))", "        solver.ensure(~(is_active[:-1, :] & is_active[1:, :]))")
+variant("enc-nas-bigger-range", "C08", GRAPH, "        ranks = solver.int_array((height, width), 0, (height * width - 1) // 2)", "        ranks = solver.int_array((height, width), 0, height * width)")
